@@ -1026,7 +1026,7 @@ func init() {
 			return c
 		},
 		Real: append([]string{"message/validation.MessageValidator.ValidatePubsubMessage (one instance per operator and one for a non-committee observer) with real operator/storage shares and operator/duties/dutystore", "protocol/v2/ssv/queue priority queue + prioritizer (the consumer's state/filter logic of validator.ConsumeQueue re-implemented, 30 lines)", "roundtimer.RoundTimer.RoundTimeout (deadlines)"}, realList...),
-		Stub: []string{"transport (per-link latency, omission, outage decided by the simulator)", "round timer goroutines (the event loop fires the deadline the real RoundTimer computes)", "beacon node, key manager as in C03", "signed-envelope (RSA) layer not active (pre-fork network configuration)", "clock (synctest bubble)"},
+		Stub: []string{"transport (per-link latency, omission, outage decided by the simulator)", "round timer goroutines (the event loop fires the deadline the real RoundTimer computes)", "beacon node, key manager as in C03", "p2p layer: Broadcast's envelope step re-implemented (sign with the real operator key when the fork is active at the sender's clock)", "clock (synctest bubble)"},
 		Rule: "committees of 4 and 7, 1-3 of the 7 roles, 1-3 slots, duties started at slot start + role offset + per-operator lag; per-link latency 1..lat_max ms (2/20/100/250). mode 0: fault-free, FIFO links; mode 1: <= f omission-faulty operators (named relative to the round-1 leader) that withhold chosen message kinds from chosen peers and ignore chosen senders; mode 2: additionally connectivity outages of arbitrary operator sets (messages lost, never late). Oracle at every (message of a correct operator, correct receiving peer): verdict != reject; in mode 0 verdict == accept. Non-trivial: >= 20 judged validations.",
 		Assumptions: []string{"a correct peer knows the validator's duties (shared duty store) and share", "timing assumption as implemented: timers fire at the RoundTimer deadline, every delivered message arrives within lat_max (+jitter) <= 500 ms of being sent; lost messages (omission, outage) are never delivered later", "at most two attester / aggregator / registration / exit duties per epoch (one assigned, one after a re-org)"}}
 }
